@@ -556,6 +556,12 @@ def run(ctx: Ctx) -> None:
         from .common import share_rules
         share_rules(ctx, "C14", "C01.R22", ["C14.R1"], "a variable / function of an accepted module is tracked whatever the depth of the module and the way the package was accepted: the "
                     "authorisation test enumerates every prefix of the module path, the whole path included (else the object is tracked by name only and its edits are not seen)")
+    if rep.prop == "C01":
+        from .c11 import method_on_result_is_not_the_call
+        rep.rule("C01.R24", "as C11.R19: a method called on the value of a dds call (`dds.load(p).upper()`) is not analysed as that dds call - the evaluation of natural code is not refused "
+                            "where plain execution returns a value")
+        n24 = method_on_result_is_not_the_call(ctx, "C01.R24")
+        rep.floor("C01.R24", n24, 2)
     from .common import forwarding_complete
     rep.rule("C01.R21", "the public entry points, the decorators' wrappers and the internal API hand over the user's `*args` and `**kwargs` together: no argument is dropped between the "
                         "user's call and the binder / the user function")
